@@ -149,12 +149,14 @@ func (e *Engine) prepareExempt(id string, fns []*ssa.Function, opts *VCOpts) {
 				}
 			}
 		}
-		if n > 80 || loops || selfrec {
+		if n > 250 || selfrec {
 			continue
 		}
 		o2 := *opts
 		o2.Safety = false
-		o2.CheckTags = nil
+		if !loops {
+			o2.CheckTags = nil
+		}
 		r := e.verifyFn(fn, &o2, nil)
 		initSem(16)
 		dischargeFn(r, Tier{Name: "exempt", BatchMS: 2000, SingleS: 5, Parallel: 16})
@@ -163,10 +165,21 @@ func (e *Engine) prepareExempt(id string, fns []*ssa.Function, opts *VCOpts) {
 			if o.Kind == "post" && o.Answer != "unsat" {
 				bad = true
 			}
+			if loops && (o.Kind == "inv-init" || o.Kind == "inv-pres") && !strings.HasPrefix(o.Tag, "auto:") && o.Answer != "unsat" {
+				bad = true
+			}
 		}
 		if bad {
 			e.exempt[k] = true
 			e.Exempted = append(e.Exempted, k)
+			if loops {
+				// a new helper with loops that does not meet the default contract of its package: it has no loop
+				// invariants of its own, so what its callers can prove with it is limited by that, not by the code
+				if e.exemptLoops == nil {
+					e.exemptLoops = map[string]bool{}
+				}
+				e.exemptLoops[k] = true
+			}
 		}
 	}
 }
